@@ -83,6 +83,21 @@ def main(argv):
             ps = sh(["bash", SUITE, wt], timeout=3600)
             suite_ok = ps.returncode == 0 and "same failing set" in ps.stdout
             log["suite"] = ps.stdout.strip().splitlines()[-1][:300] if ps.stdout else ""
+            if not suite_ok and "failing set differs" in ps.stdout:
+                # load-dependent flakes (the multiprocessing tests time out on a busy
+                # machine): tests that failed beyond the baseline are re-run alone; a
+                # baseline failure that now passes is a real difference
+                extra = [l[len("> FAILED "):].strip() for l in ps.stdout.splitlines()
+                         if l.startswith("> FAILED ")]
+                gone = [l for l in ps.stdout.splitlines() if l.startswith("< FAILED ")]
+                if extra and not gone:
+                    pr = sh([PY, "-m", "pytest", "-q", "-p", "no:cacheprovider",
+                             "--timeout=900"] + extra, cwd=wt,
+                            env={**os.environ, "PYTHONPATH": wt}, timeout=3600)
+                    log["suite_rerun_of_extra_failures"] = {
+                        "tests": extra, "rc": pr.returncode,
+                        "tail": pr.stdout.strip().splitlines()[-1][:200] if pr.stdout else ""}
+                    suite_ok = pr.returncode == 0
             log["suite_wall_s"] = round(time.time() - t0)
         ok = (log["demo_clean_rc"] == 0 and log["demo_patched_rc"] == 1 and suite_ok
               and not touches_tests)
